@@ -1,6 +1,7 @@
 package main
 
 import (
+	"runtime"
 	"fmt"
 	"io"
 	"strings"
@@ -174,6 +175,7 @@ func c17Drive(args []string) int {
 		}
 		events = append(events, M{"ev": "start", "tr": ci + 1, "case": c.Name, "k": k})
 		delivered := 0
+		firstSize, lastSize := 0, 0
 		ok := true
 		for ok {
 			var e error
@@ -197,7 +199,12 @@ func c17Drive(args []string) int {
 				if n == nil {
 					continue
 				}
-				events = append(events, M{"ev": "size", "tr": ci + 1, "case": c.Name, "k": delivered, "size": treeSizeFromRoot(n)})
+				sz := treeSizeFromRoot(n)
+				if firstSize == 0 {
+					firstSize = sz
+				}
+				lastSize = sz
+				events = append(events, M{"ev": "size", "tr": ci + 1, "case": c.Name, "k": delivered, "size": sz})
 			case "failed":
 			default:
 				ok = false
@@ -208,6 +215,45 @@ func c17Drive(args []string) int {
 			}
 		}
 		events = append(events, M{"ev": "end", "tr": ci + 1, "case": c.Name, "delivered": delivered})
+		// what the Transform retains besides the node tree (reader buffers, caches): live heap after a collection at a
+		// quarter and at the end of a long stream, while the current record's tree stays as small as above
+		if firstSize > 0 && lastSize <= 4*firstSize {
+			const n1, n2 = 10000, 40000
+			rd2 := &repeatReader{prefix: c.Prefix, suffix: c.Suffix, unit: c.Unit, k: 3*n2 + 10}
+			if tr2, err := sch.NewTransform("in", rd2, &transformctx.Ctx{}); err == nil {
+				var h1, h2 uint64
+				got := 0
+				live := func() uint64 {
+					var ms runtime.MemStats
+					runtime.GC()
+					runtime.GC()
+					runtime.ReadMemStats(&ms)
+					return ms.HeapAlloc
+				}
+				for reads := 0; reads < 8*n2 && got < n2; reads++ {
+					var e error
+					pv, _ := guarded(0, func() { _, e = tr2.Read() })
+					if pv != "" || (e != nil && classify(e) != "failed") {
+						break
+					}
+					if e == nil {
+						got++
+						if got == n1 {
+							h1 = live()
+						}
+						if got == n2 {
+							h2 = live() // (inside the loop: the Transform is still in use)
+						}
+					}
+				}
+				runtime.KeepAlive(tr2)
+				if got == n2 {
+					events = append(events, M{"ev": "heap", "tr": ci + 1, "case": c.Name, "at": n1, "live": h1, "at2": n2, "live2": h2})
+					sum.eval(true, M{"heap": c.Name})
+				}
+				_ = tr2
+			}
+		}
 		sum.Traces++
 		sum.eval(delivered >= 100 && (strings.Contains(c.Name, "filtered") || strings.Contains(c.Name, "failing") || strings.Contains(c.Unit(0), "\n")), M{"c": c.Name, "k": k})
 		if ci == 1 {
